@@ -16,6 +16,12 @@ def snaps_equal(a, b):
     return True
 
 
+def global_rng_fingerprint():
+    """state of the process-global generators (numpy legacy + python random): a run that is reproducible from its own seeds leaves them alone"""
+    st = np.random.get_state()
+    return (hash(st[1].tobytes()), st[2], hash(random.getstate()))
+
+
 def trace_dump(log):
     return [dict((k, v) for k, v in s.items()) for s in log]
 
@@ -64,7 +70,10 @@ def run(tier, seed):
             if shared_zl is not None: kw["zeta_list"] = shared_zl       # one list object handed to every member and to every run
             if cls == "es": kw.update(spawn_stack=[3, 2], quadrature="gl", mcsamples=2); kw["samples"] = 1
             b = BatchedTraj(M[mname](), gen(), C, **kw)
+            fp0 = global_rng_fingerprint()
             r = b.compute()
+            if global_rng_fingerprint() != fp0:
+                bad.append(dict(failed="runs are reproducible from their seeds: a batch drew numbers from the process-global random generator (numpy.random.* or random.*) instead of its own seeded streams", case=dict(cls=cls, model=mname, seed=sd)))
             return [(trace_dump(t), [dict(h) for h in t.hops], {e: list(v) for e, v in t.events.items()}, t.weight) for t in r.traces]
         r1, r2 = batch(ns), batch(ns)
         info = dict(cls=cls, model=mname, seed=sd, samples=ns, generator=gkind)
@@ -103,10 +112,13 @@ def run(tier, seed):
             if cls == "es-leaf": kw.update(spawn_stack=None, queue=queue.Queue())
             C = mudslide.TrajectoryCum if cls == "cumulative" else EvenSamplingTrajectory
             outs = []
+            fp0 = global_rng_fingerprint()
             for j in range(6):
                 kw["seed_sequence"] = np.random.SeedSequence(sd, spawn_key=(j,))
                 t = C(M[mname](), [x0], [k], 1, **kw); lg = t.simulate()
                 outs.append((trace_dump(lg), [dict(h) for h in lg.hops]))
+            if global_rng_fingerprint() != fp0:
+                bad.append(dict(failed="runs are reproducible from their seeds: a %s trajectory drew numbers from the process-global random generator (numpy.random.* or random.*) instead of its own seeded stream" % cls, case=dict(cls=cls, model=mname, seed=sd)))
             return outs
         a, b = one(), one()
         nh = sum(len(o[1]) for o in a)
